@@ -1179,7 +1179,12 @@ class _CellBase:
         return self.value is None
 
     def close_enough(self, value, rel=0.00001, tol=None):
-        if isinstance(self.value, Number) and isinstance(value, Number):
+        logical = (bool, np.bool_)
+        if isinstance(self.value, logical) or isinstance(value, logical):
+            # 1 == True and 0 == False in python, but not in excel
+            return (isinstance(self.value, logical) and
+                    isinstance(value, logical) and self.value == value)
+        elif isinstance(self.value, Number) and isinstance(value, Number):
             if tol is not None:
                 return abs(value - self.value) <= (1 + rel) * tol
             elif value and self.value:
